@@ -74,6 +74,71 @@ theorem clampFrom_exact (ds : Bytes) (hd : ds.all isDec = true) : ∀ e, valFrom
     rw [valFrom_cons]
     exact ih hd.2 _ hlt
 
+theorem clampFrom_stuck (ds : Bytes) : ∀ e, 10000 ≤ e → clampFrom e ds = e := by
+  induction ds with
+  | nil => intro e _; rfl
+  | cons c cs ih =>
+    intro e he
+    unfold clampFrom
+    rw [List.foldl_cons]
+    have : ¬ e < 10000 := by omega
+    simp only [this, if_false]
+    exact ih e he
+
+theorem valFrom_ge_mul (ds : Bytes) : ∀ e, e * 10 ^ ds.length ≤ valFrom e ds := by
+  induction ds with
+  | nil => intro e; simp [valFrom]
+  | cons c cs ih =>
+    intro e
+    rw [valFrom_cons, List.length_cons, Nat.pow_succ]
+    have := ih (e * 10 + digVal c)
+    have h2 : e * (10 ^ cs.length * 10) = (e * 10) * 10 ^ cs.length := by
+      rw [Nat.mul_comm (10 ^ cs.length) 10, Nat.mul_assoc]
+    have h3 : (e * 10) * 10 ^ cs.length ≤ (e * 10 + digVal c) * 10 ^ cs.length := Nat.mul_le_mul_right _ (by omega)
+    omega
+
+/-- **what the clamp does**: the loop `if e < 10000 { e = e*10 + d }` returns the exact value of
+every literal below 100000; for a larger literal it keeps the first five significant digits: a
+number c in [10000, 99999] with 10·c ≤ literal -/
+theorem clampFrom_spec (ds : Bytes) (hd : ds.all isDec = true) : ∀ e, e < 10000 →
+    (valFrom e ds < 100000 → clampFrom e ds = valFrom e ds) ∧
+    (100000 ≤ valFrom e ds → 10000 ≤ clampFrom e ds ∧ clampFrom e ds ≤ 99999 ∧ 10 * clampFrom e ds ≤ valFrom e ds) := by
+  induction ds with
+  | nil => intro e he; exact ⟨fun _ => rfl, fun h => by simp [valFrom] at h; omega⟩
+  | cons c cs ih =>
+    intro e he
+    rw [List.all_cons, Bool.and_eq_true] at hd
+    have hdv : c.toNat - 48 = digVal c := by simp [digVal, hd.1]
+    have h9 : digVal c ≤ 9 := ((mant_byte_facts c).2.1 hd.1).2.1
+    have hstep : clampFrom e (c :: cs) = clampFrom (e * 10 + digVal c) cs := by
+      unfold clampFrom
+      rw [List.foldl_cons]
+      simp only [he, if_true, hdv]
+    rw [hstep, valFrom_cons]
+    by_cases hsmall : e * 10 + digVal c < 10000
+    · exact ih hd.2 _ hsmall
+    · have hge : 10000 ≤ e * 10 + digVal c := by omega
+      rw [clampFrom_stuck cs _ hge]
+      have hmul := valFrom_ge_mul cs (e * 10 + digVal c)
+      cases cs with
+      | nil =>
+        have hv : valFrom (e * 10 + digVal c) [] = e * 10 + digVal c := rfl
+        rw [hv]; exact ⟨fun _ => rfl, fun h => by omega⟩
+      | cons c2 cs2 =>
+        have hp : 10 ≤ 10 ^ (c2 :: cs2).length := by
+          rw [List.length_cons, Nat.pow_succ]
+          have := Nat.pow_pos (n := cs2.length) (by decide : 0 < 10)
+          omega
+        have h10 : (e * 10 + digVal c) * 10 ≤ (e * 10 + digVal c) * 10 ^ (c2 :: cs2).length := Nat.mul_le_mul_left _ hp
+        refine ⟨fun hlt => by omega, fun _ => ⟨hge, by omega, by omega⟩⟩
+
+/-- what the clamp adds to the exponent the specification reads: 0 below 100000 -/
+def gapInt (neg : Bool) (ds : Bytes) : Int :=
+  (if neg then -1 else 1) * ((clampFrom 0 ds : Int) - (valOf 10 ds : Int))
+
+theorem gapInt_nil (neg : Bool) : gapInt neg [] = 0 := by
+  unfold gapInt clampFrom valOf; simp
+
 /-- where the exponent loop stops -/
 theorem expLoop_rest (t : Bytes) : ∀ e, (expLoop t e).2 = [] ∨ ∃ c r, (expLoop t e).2 = c :: r ∧ c ≠ 95 := by
   induction t with
@@ -276,12 +341,12 @@ theorem expDigits_ok (r3 : Bytes) (h95 : ∀ r', r3 ≠ 95 :: r')
     simp only [nondigit_test, hd, Bool.not_true, Bool.false_eq_true, if_false, e1, e2]
 
 /-- **the exponent part of `readFloat` = `parseExp` of the specification** (on a text obeying the
-underscore rule and not starting with an underscore); the values agree below the clamp 10000 -/
+underscore rule and not starting with an underscore); the code's exponent is the specification's plus the clamp's gap -/
 theorem okPart_spec (dig : UInt8 → Bool) (hd43 : dig 43 = false) (hd45 : dig 45 = false)
     (r1 : Bytes) (hu : underscoresOK dig false r1 = true) (h95 : ∀ r', r1 ≠ 95 :: r') :
     (parseExp (strip r1) = none → okPart r1 = none) ∧
     (∀ x, parseExp (strip r1) = some x →
-      ∃ y, okPart r1 = some y ∧ (valOf 10 (splitSign (strip r1)).2 < 10000 → y = x)) := by
+      ∃ y, okPart r1 = some y ∧ y = x + gapInt (splitSign (strip r1)).1 (splitSign (strip r1)).2) := by
   cases r1 with
   | nil => exact ⟨fun _ => rfl, fun x h => by simp [strip, parseExp, splitSign] at h⟩
   | cons c1 r2 =>
@@ -301,7 +366,7 @@ theorem okPart_spec (dig : UInt8 → Bool) (hd43 : dig 43 = false) (hd45 : dig 4
           else some (if neg then -((valOf 10 (strip r3) : Nat) : Int) else ((valOf 10 (strip r3) : Nat) : Int))) = some x →
           ∃ y, (match (digitsPart r3).map (fun p => ((p.1 : Int) * sg, p.2)) with
             | some (x, []) => some x
-            | _ => none) = some y ∧ (valOf 10 (strip r3) < 10000 → y = x)) := by
+            | _ => none) = some y ∧ y = x + gapInt neg (strip r3)) := by
       intro neg r3 sg h3 hsg
       by_cases hbad : ((strip r3).isEmpty || !(strip r3).all isDec) = true
       · simp only [hbad, if_true]
@@ -314,10 +379,11 @@ theorem okPart_spec (dig : UInt8 → Bool) (hd43 : dig 43 = false) (hd45 : dig 4
           simp only [Bool.or_eq_false_iff, Bool.not_eq_false'] at hbad; exact hbad.2
         simp only [hbad, Bool.false_eq_true, if_false]
         rw [expDigits_ok r3 h3 hbad]
-        refine ⟨fun h => (by cases h), fun x h => ⟨_, rfl, fun hlt => ?_⟩⟩
+        refine ⟨fun h => (by cases h), fun x h => ⟨_, rfl, ?_⟩⟩
         injection h with h
-        rw [clampFrom_exact _ hall 0 (by rw [← valOf_eq]; exact hlt), ← valOf_eq, hsg, ← h]
-        cases neg <;> simp
+        rw [hsg, ← h]
+        unfold gapInt
+        cases neg <;> simp <;> omega
     by_cases hp : c1 = 43
     · subst hp
       obtain ⟨_, h2⟩ := uOK_after_nondigit dig false 43 r2 (by decide) hd43 hu
